@@ -24,7 +24,7 @@ func init() {
 	lib.Register(&c11{base{
 		id: "C11", level: "fault_enumeration",
 		technique: "runtime fault injection + self-differential monitor: a caller-supplied format checker panics at its k-th invocation, for EVERY k from 1 to the number of invocations K of the panic-free run of the workload (and the documented invalid-schema panic is raised at every depth the workload can place a dangling $ref); the caller recovers; then a follow-up history runs and every outcome is compared with its fresh-process reference while the pool hooks run the ownership automaton (double redeem, borrow of an owned object) and poison redeemed objects",
-		rule: "one case = one workload (12-24 calls through AgainstSchema, recycling schema / parameter / header validators and Spec, whose schemas, items and parameter defaults carry the panicking format under object / array / allOf / anyOf / oneOf / not / additionalProperties / dependencies parents) x every injection point k=1..K x a follow-up history of 60 calls (+ a whole-specification validation every 6th k); K is measured per workload and reported; distinct = FNV-64 of workload + k (each injection point is its own case); non-trivial = the injected panic actually unwound a validation (was recovered by the caller) and the follow-up ran",
+		rule: "one case = one workload (12-24 calls through AgainstSchema, recycling schema / parameter / header validators and Spec, whose schemas, items and parameter defaults carry the panicking format under object / array / allOf / anyOf / oneOf / not / additionalProperties / dependencies parents) x every injection point k=1..K x a follow-up history of 60 calls (+ a whole-specification validation every 6th k); K is measured per workload and reported; distinct = FNV-64 of workload + k (each injection point is its own case: a workload with K checker invocations contributes K+1 distinct cases); non-trivial = the injected panic actually unwound a validation (was recovered by the caller) and the follow-up ran",
 		assumptions: []string{
 			"fault model: panics raised by the format checker or by the documented invalid-schema check, recovered by the caller; one panic per history",
 			"fresh-process, non-recycling executions are the oracle for the follow-up calls",
@@ -185,6 +185,7 @@ func (p *c11) Run(w *lib.Worker, idx int, r *lib.Rand) lib.Case {
 			return c
 		}
 		recovered++
+		c.Hashes = append(c.Hashes, lib.Hash64(append(append([]byte{}, rendered...), byte(k), byte(k>>8))))
 		c.Tags = append(c.Tags, "unwound:"+wl[panicAt].Kind)
 		// the caller recovered; every later validation must behave as in a fresh process
 		for i, op := range follow {
